@@ -57,6 +57,21 @@ def gen_case(rng):
             e["locs"].append(dict(file=rng.choice(FILES) if rng.random() < 0.9 else "", line=rng.choice([0, 1, 2, 3, 5, 7, 40]),
                                   info=None if rng.random() < 0.6 else rstr(rng, 0, 8)))
         errs.append(e)
+    # twins: distinct findings sharing id / file / line (e.g. uninitvar for a and b on `return a + b;`, two
+    # unmatchedSuppression at `*`:0, two location-less findings of one id) — each must still be listed on its own
+    for _ in range(rng.choice([0, 1, 1, 2])):
+        src = rng.choice(errs)
+        t = dict(src, locs=[dict(l) for l in src["locs"]])
+        k = rng.random()
+        if k < 0.6:
+            t["msg"] = src["msg"] + rng.choice([" b", "2", "<x>"])       # same place and id, other message
+        elif k < 0.8:
+            t["sev"] = rng.choice(SEVS[:6])                               # same place, id and message, other severity
+        elif t["locs"]:
+            t["locs"][0]["line"] = src["locs"][0]["line"] + 1             # same id and message, next line
+        if t["verbose"] is not None:
+            t["verbose"] = t["msg"]
+        errs.insert(rng.randrange(len(errs) + 1), t)
     return errs
 
 
